@@ -26,6 +26,58 @@ DEFAULT_N = {"grad": 8000, "batch": 8000, "api": 40000, "backend": 12000, "conv"
 MODES = tuple(DEFAULT_N)
 FAIL_RE = re.compile(r"^FAIL (\S+) (.*?) :: (\S+)\s?(.*)$")
 
+# Floors on the work done (tag `prog-floor`).  Measured on the unchanged tree over VERIF_SEED 1..30 at the quick
+# sizes (1 Oct, design/audit2-engines.md): smallest share of non-trivial programs grad 0.9967 (300 programs) /
+# 0.9983 (3000), batch 0.840, api 1.0, backend 0.999, conv 1.0; the floor is about half of that.  grad: at least
+# 15.3 coordinates compared per program -> 7.  backend: whole-program comparisons (extra.whole_EE) 0.88 per
+# program -> 0.4; tensors not compared (reference not finite / above 1e6) at most 0.00133 of all tensors -> cap
+# 0.004; programs with a non-finite reference at most 0.003 -> cap 0.01; elements accepted because the noise run
+# was not finite: 0 in 90000 programs -> cap 0.001 per program.  Functions used: 74 / 67 / 80 / 78 in every run
+# of >= 300 programs -> at least that minus 4.  Generator (SUMMARY.gen = [attempts, rejected with Error, emitted]
+# per function): 41 of 17.4 million valid-by-construction calls were rejected with Error (sum / mean of a node
+# list 40 of 160000, pick 1); a function is flagged when all, or more than half, of >= 20 calls are rejected.
+FLOOR_NONTRIVIAL = {"grad": 0.5, "batch": 0.42, "api": 0.5, "backend": 0.5, "conv": 0.5}
+FLOOR_FUNCTIONS = {"grad": 70, "batch": 63, "api": 76, "backend": 74}
+
+
+def floor_problems(mode, n, res):
+    """-> list of reasons why this run did less than it must (empty: fine)."""
+    bad = []
+    programs, nontriv, fail = res.get("programs", 0), res.get("nontrivial", 0), res.get("fail", 0)
+    if programs < n:
+        bad.append("only %d of the %d requested programs were run" % (programs, n))
+    if nontriv + fail < FLOOR_NONTRIVIAL[mode] * n:
+        bad.append("only %d of %d programs non-trivial (floor %.2f)" % (nontriv, n, FLOOR_NONTRIVIAL[mode]))
+    ops, gen, extra = res.get("ops") or {}, res.get("gen") or {}, res.get("extra") or {}
+    if mode == "conv":
+        return bad
+    if n >= 300 and len(ops) < FLOOR_FUNCTIONS[mode]:
+        bad.append("only %d distinct functions in the checked programs (floor %d)" % (len(ops), FLOOR_FUNCTIONS[mode]))
+    if n >= 20 and not gen:
+        bad.append("the driver reported no generator table")
+    for op in sorted(gen):
+        att, rej, emitted = gen[op]
+        if att >= 20 and emitted == 0:
+            bad.append("function `%s`: all %d valid-by-construction calls of the generator were dropped (%d rejected with Error): it is in no program" % (op, att, rej))
+        elif att >= 20 and 2 * rej > att:
+            bad.append("function `%s`: %d of %d valid-by-construction calls rejected with Error" % (op, rej, att))
+        elif emitted >= 20 and not ops.get(op):
+            bad.append("function `%s`: generated %d times but in no checked (non-trivial) program" % (op, emitted))
+    if mode == "grad" and res.get("coords_checked", 0) < 7 * n:
+        bad.append("only %d gradient coordinates compared in %d programs (floor 7 per program)" % (res.get("coords_checked", 0), n))
+    if mode == "backend":
+        cmpd = extra.get("whole_tensors_compared", 0)
+        skipped = extra.get("skipped_nonfinite_reference_tensors", 0) + extra.get("skipped_reference_above_1e6_tensors", 0)
+        if extra.get("whole_EE", 0) < 0.4 * n:
+            bad.append("only %d whole-program comparisons in %d programs (floor 0.4 per program)" % (extra.get("whole_EE", 0), n))
+        if skipped > max(3, 0.004 * (cmpd + skipped)):
+            bad.append("%d of %d tensors not compared (reference not finite or above 1e6; cap 0.004)" % (skipped, cmpd + skipped))
+        if extra.get("skipped_nonfinite_reference_programs", 0) > max(3, 0.01 * n):
+            bad.append("%d of %d programs skipped: reference result not finite (cap 0.01)" % (extra.get("skipped_nonfinite_reference_programs", 0), n))
+        if extra.get("skipped_nonfinite_noise_elements", 0) > max(3, 0.001 * n):
+            bad.append("%d elements accepted only because the noise run was not finite (cap 0.001 per program)" % extra.get("skipped_nonfinite_noise_elements", 0))
+    return bad
+
 
 def _tmpdir():
     d = os.path.join(pv.WORK, "replay")
@@ -129,7 +181,8 @@ def run_mode(ctx, mode, n_programs=None, variant="plain", devmap=None, seed=None
     nontrivial, skipped_kinks, coords_checked, coords_illcond, coords_zero_grad, invalid_programs,
     rejected_by_both, values_compared, max_err_over_tol, max_dev{}, extra{}, ops{<function>: uses}
     plus: n_requested, wall_s, cmd, driver, driver_rc, fails[{mode, class, details, program,
-    shrunk_program, shrink_rounds, replay_file}], violations_reported.
+    shrunk_program, shrink_rounds, replay_file}], violations_reported, gen{<function>: [attempts, rejected, emitted]},
+    floor{problems, ...}.  A run that did less than the floors above is a violation (tag prog-floor, no failing input).
     """
     if mode not in MODES:
         raise ValueError("unknown prog mode %r" % mode)
@@ -187,6 +240,15 @@ def run_mode(ctx, mode, n_programs=None, variant="plain", devmap=None, seed=None
             if ctx.violation("prog-" + mode, obj, True, text):
                 res["violations_reported"] += 1
         res["fails"].append(entry)
+    bad = floor_problems(mode, n, res)
+    res["floor"] = {"problems": bad, "nontrivial_share": round(res.get("nontrivial", 0) / float(max(1, n)), 4), "functions_used": len(res.get("ops") or {}),
+                    "generator_calls_rejected_with_error": sum(v[1] for v in (res.get("gen") or {}).values()),
+                    "skipped": {k: v for k, v in (res.get("extra") or {}).items() if k.startswith("skipped_")}}
+    if bad:
+        obj = {"kind": "prog-floor", "mode": mode, "n_requested": n, "problems": bad, "cmd": cmd, "driver": binary, "seed": seed,
+               "witness": "prog-floor %s :: %s" % (mode, bad[0]), "prog_replay_cmd": cmd}
+        if ctx.violation("prog-floor", obj, False, "prog %s did less than the floor: %s" % (mode, "; ".join(bad)[:1500])):
+            res["violations_reported"] += 1
     res["wall_s"] = round(time.time() - t0, 2)
     return res
 
@@ -196,6 +258,12 @@ def replay(ctx, obj):
     cmd = obj.get("prog_replay_cmd")
     if not cmd:
         return 0
+    if obj.get("kind") == "prog-floor":
+        rc, out = pv.sh(cmd, timeout=900)
+        summary, fails, _ = parse_output(out)
+        bad = floor_problems(obj["mode"], int(obj["n_requested"]), summary or {})
+        print("\n".join(bad) or "the floors are met")
+        return 1 if (bad or fails or rc != 0) else 0
     rc, out = pv.sh(cmd, timeout=300)
     print(out[-3000:])
     _, fails, _ = parse_output(out)
